@@ -568,6 +568,12 @@ pub fn sweep(tier: Tier) -> SweepResult {
                         evs.push(json!({"range": {"start": {"line": l1, "character": c1}, "end": {"line": l2, "character": c2}}, "text": r}));
                         cur.replace_range(*a..*e, r);
                     }
+                    // every second batch of several events ends with a range-less event instead
+                    // (full replacement by the text the last ranged event would have produced)
+                    if evs.len() >= 2 && c.id() % 2 == 0 {
+                        evs.pop();
+                        evs.push(json!({"text": cur}));
+                    }
                     s.change(URI, Value::Array(evs));
                 }
                 let o = s.run();
